@@ -610,10 +610,16 @@ class CryptographyEngine(api.CryptographicEngine):
                     raise exceptions.CryptographicFailure(
                         "The public key bytes could not be loaded."
                     )
-            cipher_text = public_key.encrypt(
-                plain_text,
-                padding_method
-            )
+            try:
+                cipher_text = public_key.encrypt(
+                    plain_text,
+                    padding_method
+                )
+            except Exception as e:
+                self.logger.exception(e)
+                raise exceptions.CryptographicFailure(
+                    "The asymmetric encryption process failed."
+                )
             return {'cipher_text': cipher_text}
         else:
             raise exceptions.InvalidField(
@@ -972,10 +978,16 @@ class CryptographyEngine(api.CryptographicEngine):
                     raise exceptions.CryptographicFailure(
                         "The private key bytes could not be loaded."
                     )
-            plain_text = private_key.decrypt(
-                cipher_text,
-                padding_method
-            )
+            try:
+                plain_text = private_key.decrypt(
+                    cipher_text,
+                    padding_method
+                )
+            except Exception as e:
+                self.logger.exception(e)
+                raise exceptions.CryptographicFailure(
+                    "The asymmetric decryption process failed."
+                )
             return plain_text
         else:
             raise exceptions.InvalidField(
@@ -1418,24 +1430,26 @@ class CryptographyEngine(api.CryptographicEngine):
             )
 
         if padding == enums.PaddingMethod.PSS:
-            signature = key.sign(
-                data,
-                asymmetric_padding.PSS(
-                    mgf=asymmetric_padding.MGF1(hash_alg()),
-                    salt_length=asymmetric_padding.PSS.MAX_LENGTH
-                ),
-                hash_alg()
+            signature_padding = asymmetric_padding.PSS(
+                mgf=asymmetric_padding.MGF1(hash_alg()),
+                salt_length=asymmetric_padding.PSS.MAX_LENGTH
             )
         elif padding == enums.PaddingMethod.PKCS1v15:
-            signature = key.sign(
-                data,
-                padding_method(),
-                hash_alg()
-            )
+            signature_padding = padding_method()
         else:
             raise exceptions.InvalidField(
                 "Padding method '{0}' is not a supported signature "
                 "padding method.".format(padding)
+            )
+
+        try:
+            signature = key.sign(data, signature_padding, hash_alg())
+        except Exception as e:
+            # The key cannot produce this signature (e.g., the modulus is too
+            # small for the digest, or the key is not an RSA key at all).
+            self.logger.exception(e)
+            raise exceptions.CryptographicFailure(
+                "The signing process failed."
             )
         return signature
 
